@@ -94,32 +94,19 @@ def run(ctx):
             if not ctx.oblige("C15|str|%s|anchor" % short, fwd is not None and bwd is not None, "anchor missing: string tables of " + path, cfg=cfg):
                 continue
             n_types += 1
+            from . import ftable as FT
             try:
-                _, frows = T.variant_table(fwd, F)
-                _, brows = T.conversion_table(bwd, F)
-            except T.Unreadable as e:
+                enc, dec, _f, _b = FT.string_tables(F, path)
+            except FT.Unreadable as e:
                 ctx.violation("C15|str|%s|unreadable" % short, "UNREADABLE-IMPL: %s" % e, cfg=cfg)
                 continue
-            enc = {}
-            for r in frows:
-                if r["variant"]:
-                    k, v = T.result_value(r["res"], F)
-                    enc.setdefault(r["variant"], v if k == "lit" else None)
             for var, s in enc.items():
-                r = T.first_match(brows, s)
-                got = None
-                if r is not None and r["kind"] == "ok":
-                    k, c = T.result_value(r["res"], F)
-                    got = c if k == "ctor" else None
-                ctx.oblige("C15|str|%s|enc-dec|%s" % (short, var.split("::")[-1]), got == var, "%s encodes as %r which decodes to %s" % (var, s, got), cfg=cfg, where=bwd["sp"])
-            for r in brows:
-                if r["catchall"]:
-                    break
-                if r["kind"] != "ok":
+                got = dec.get(s)
+                ctx.oblige("C15|str|%s|enc-dec|%s" % (short, var), got == var, "%s::%s encodes as %r which decodes to %s" % (short, var, s, got), cfg=cfg, where=bwd["sp"])
+            for s, var in dec.items():
+                if var is None:
                     continue
-                k, c = T.result_value(r["res"], F)
-                for s in r["vals"]:
-                    ctx.oblige("C15|str|%s|dec-enc|%s" % (short, s), k == "ctor" and enc.get(c) == s, "%r decodes to %s which re-encodes as %r" % (s, c, enc.get(c)), cfg=cfg, where=fwd["sp"])
+                ctx.oblige("C15|str|%s|dec-enc|%s" % (short, s), enc.get(var) == s, "%r decodes to %s which re-encodes as %r" % (s, var, enc.get(var)), cfg=cfg, where=fwd["sp"])
             ser, de = T.ser_impl(F, path), T.de_impl(F, path)
             oks = ser is not None and any(H.conversion_impl(n) == "<&str as core::convert::From<%s>>" % path for n in H.walk(ser["body"]))
             okd = de is not None and any(H.conversion_impl(n) == "<%s as core::convert::TryFrom<&str>>" % path for n in H.walk(de["body"]))
